@@ -319,5 +319,29 @@ PROPS["C13"] = {
     "assumptions": [],
 }
 
+PROPS["C18"] = {
+    "package": "c18", "exe": "m_c18",
+    "rule": "a scripted HTTP/1.1 server on 127.0.0.1, one script item per accepted request: 200 with the complete body, 200 "
+            "stalled after 0 / 1 / half / all-but-one bytes, 200 broken off (connection closed mid-body), 500/502/503, 403/404/"
+            "410, 400/401/416/429, connection closed before any response, request read but never answered; with and without "
+            "Accept-Ranges (an honest server: honours Range iff it announces it); all scripts of length 1 and 2 over nine item "
+            "kinds for tries 1..2 (quick) / 1..4 (thorough), random scripts of length <= tries+2 for tries 1..4 and resource "
+            "sizes 0, 1, 2, 1 KiB, 4 KiB, 256 KiB; client time-outs 700 ms, 24 fetches in flight. The model input is the script "
+            "the server actually executed. Non-trivial: the script contains something other than complete bodies.",
+    "explanation": "Theorems (Tough/Props/C18.lean): for every script (any length and order) the bytes yielded are a prefix "
+                   "of the resource (in order, no duplication, no gaps), a clean end means the whole resource, a Range request "
+                   "is only sent after range support was announced, requests <= tries (tries >= 1), 403/404/410 are 'not "
+                   "found' and other 4xx fail at once. Correspondence: bytes yielded, final status, number of requests and "
+                   "Range headers seen by the server vs the model.",
+    "level_text": "Kernel-checked invariant of the retry state machine over arbitrary event scripts; differential runs against "
+                  "a real socket server with stalls and broken connections.",
+    "level_note": "PARTIAL with respect to the runtime: reqwest/hyper/tokio (which events a stall or a closed connection "
+                  "produce, time-out accuracy) are events of the model; 'yields exactly resource bytes' assumes an honest "
+                  "server (a body is resource[offset..] for the offset it was asked for). Timing margins: 700 ms client "
+                  "time-out vs 2.5 s stalls.",
+    "trusted": ["modelled, not verified: reqwest 0.12 / hyper / tokio (response events, time-outs, error classification is_timeout/is_request)"],
+    "assumptions": ["honest server content", "tries >= 1"],
+}
+
 _PENDING = "check under construction in this session (DESIGN.md §10 order of work); not claimed until it runs"
 NOT_APPLICABLE = {f"C{i:02d}": _PENDING for i in range(1, 21)}
